@@ -193,10 +193,23 @@ def rec_bin(o, a, b):
 INT, SNG, DBL, STR = 0, 1, 2, 3
 
 
-def chk(x):
-    if not -32767 <= x <= 32767:
+BOUND = {INT: 32767, SNG: 1 << 24, DBL: 1 << 53}
+
+
+def chk(t, x):
+    """x must be exactly representable in type t (else the case is outside the exact domain)."""
+    if abs(x) > BOUND[t]:
         raise OutOfDomain()
-    return x
+    return (t, x)
+
+
+def to_int16(x):
+    """to_integer() of an integer-valued number: Overflow beyond the integer range."""
+    if abs(x) <= 32767:
+        return x
+    if x == -32768:
+        raise OutOfDomain()
+    raise BErr(6)
 
 
 def val_un(o, a):
@@ -204,10 +217,10 @@ def val_un(o, a):
     if o == 2:
         return a
     if o == 1:
-        return a if t == STR else (max(t, SNG), chk(-x))
+        return a if t == STR else chk(max(t, SNG), -x)
     if t == STR:
         raise BErr(13)
-    return (INT, chk(-x - 1))
+    return chk(INT, -to_int16(x) - 1)
 
 
 def trunc_div(x, y):
@@ -216,8 +229,11 @@ def trunc_div(x, y):
 
 
 def val_bin(o, a, b):
-    """Operators of the property statement: result type and value."""
+    """Operators of the property statement: result type and value, computed on the exact values in the
+    widest operand type (nothing is narrowed to the type of the other operand)."""
     (ta, x), (tb, y) = a, b
+    if (o in (4, 5) or o >= 14) and ta != STR:
+        to_int16(x)                                    # integer operators convert the left operand first
     if (ta == STR) != (tb == STR):
         raise BErr(13)                                 # string / number mix
     if ta == STR:
@@ -232,29 +248,31 @@ def val_bin(o, a, b):
     wide = max(ta, tb)
     if o in (6, 7, 2):                                 # + - * : widest operand type; integers are promoted
         r = {6: x + y, 7: x - y, 2: x * y}[o]          # to single (interpretation I1, design_notes/C18.md)
-        return (max(wide, SNG), chk(r))
+        return chk(max(wide, SNG), r)
     if o == 3:                                         # / never integer
         if y == 0 or x % y:
             raise OutOfDomain()
-        return (max(wide, SNG), chk(x // y))
+        return chk(max(wide, SNG), x // y)
     if o == 1:                                         # ^ never integer (single unless double_math)
-        if y < 0:
+        if y < 0 or abs(x) > BOUND[SNG] or abs(y) > BOUND[SNG]:
             raise OutOfDomain()
-        if abs(x) > 1 and y > 16:
+        if abs(x) > 1 and y > 64:
             raise OutOfDomain()
-        return (SNG, chk(x ** y))
+        return chk(SNG, x ** y)
+    if 8 <= o <= 13:                                   # relational: integer -1 / 0, on the exact values
+        r = {8: x > y, 9: x == y, 10: x < y, 11: x >= y, 12: x <= y, 13: x != y}[o]
+        return (INT, -1 if r else 0)
+    x = to_int16(x)                                    # \ MOD AND OR XOR EQV IMP work on integers
+    y = to_int16(y)
     if o in (4, 5):
         if y == 0:
             raise OutOfDomain()
         q = trunc_div(x, y)
-        return (INT, chk(q if o == 4 else x - q * y))
-    if 8 <= o <= 13:                                   # relational: integer -1 / 0
-        r = {8: x > y, 9: x == y, 10: x < y, 11: x >= y, 12: x <= y, 13: x != y}[o]
-        return (INT, -1 if r else 0)
+        return chk(INT, q if o == 4 else x - q * y)
     m = 0xffff
     ux, uy = x & m, y & m
     r = {14: ux & uy, 15: ux | uy, 16: ux ^ uy, 17: ~(ux ^ uy) & m, 18: (~ux & m) | uy}[o]
-    return (INT, chk(r - 0x10000 if r & 0x8000 else r))
+    return chk(INT, r - 0x10000 if r & 0x8000 else r)
 
 
 def ref_eval(e, un, bi):
@@ -462,6 +480,14 @@ class C18(core.Check):
             val(B(6, ['S', 'a'], N(1))), val(B(6, N(1), ['S', 'a'])), val(B(7, ['S', 'a'], ['S', 'b'])),
             val(B(8, N(1), ['S', 'a'])), val(U(3, ['S', 'a'])), val(U(1, ['S', 'a'])), val(U(2, N(1))),
             val(U(1, N(1))), val(U(3, N(1, 2))), val(B(14, N(3, 1), N(5, 2))),
+            # the operator works in the widest operand type, whichever side the wider operand is on (seed C18c)
+            val(B(8, N(3), N(40000, 2))), val(B(10, N(40000, 2), N(3))), val(B(9, N(16777216, 1), N(16777217, 2))),
+            val(B(9, N(16777217, 2), N(16777216, 1))), val(B(6, N(1), N(16777217, 2))),
+            val(B(7, N(2), N(16777217, 2))), val(B(6, N(16777216, 1), N(16777217, 2))),
+            val(B(8, B(10, N(1), N(2)), U(1, N(40000, 2)))), val(B(12, N(2), N(16777217, 2))),
+            val(B(11, N(16777217, 2), N(2))), val(B(13, N(40000, 1), N(40001, 2))),
+            val(B(14, N(40000, 2), N(1))), val(B(14, N(100000, 1), ['S', 'A'])), val(B(5, ['S', 'A'], N(100000, 1))), val(U(3, N(40000, 1))), val(B(4, N(7), N(32768, 1))),
+            val(B(2, N(4096, 1), N(4096, 1))), val(B(2, N(123456789, 2), N(1000))),
             val(B(18, N(1), ['S', 'a'])),                             # D18a: 1 IMP "a" must be Type mismatch
             val(B(18, N(1, 2), ['S', ''])), val(B(18, ['S', 'a'], N(1))),
             val(B(10, ['S', 'ab'], ['S', 'b'])), val(B(8, ['S', 'a'], ['S', 'ab'])),
@@ -507,6 +533,47 @@ class C18(core.Check):
                 out.append(['j', rng.choice([0xcd, 0xcc, 0xcf, 0x23, 0x40])])
         return out
 
+    SMALL = [0, 1, 2, 3, 4, 5, 7, 8, 10, 12, 100, 255, 256, 1000, 32767]
+    # integers that only a single / only a double holds exactly: they make the working precision observable
+    BIG = {1: [32768, 40000, 65536, 100000, 8388608, 16777215, 16777216],
+           2: [32768, 40000, 16777216, 16777217, 16777219, 33554433, 123456789, 4294967297, (1 << 40) + 1,
+               (1 << 53) - 1]}
+
+    def num_leaf(self, t, pbig):
+        rng = self.rng
+        if t and rng.random() < pbig:
+            return ['N', t, rng.choice(self.BIG[t])]
+        return ['N', t, rng.choice(self.SMALL + [rng.randrange(0, 50)])]
+
+    def gen_mixed(self):
+        """Shallow mixed-precision expression: an arithmetic or relational operator on operands of different
+        numeric types, the wider one on either side, with values that do not survive narrowing."""
+        rng = self.rng
+
+        def operand(t):
+            x = self.num_leaf(t, 0.6)
+            r = rng.random()
+            if r < 0.15:
+                return ['U', 1, x]
+            if r < 0.25 and t == 0:
+                return ['B', rng.randrange(8, 14), self.num_leaf(0, 0), self.num_leaf(rng.randrange(3), 0.3)]
+            if r < 0.32:
+                return ['P', x]
+            return x
+        for attempt in range(30):
+            ta, tb = rng.choice([(0, 2), (2, 0), (1, 2), (2, 1), (0, 1), (1, 0), (0, 2), (1, 2), (2, 2)])
+            o = rng.choice([6, 7, 6, 7, 8, 9, 10, 11, 12, 13, 8, 9, 10, 11, 12, 13, 2, 3])
+            e = ['B', o, operand(ta), operand(tb)]
+            if rng.random() < 0.25:
+                e = ['B', rng.choice([6, 7, 9, 13, 8, 10]), e, operand(rng.randrange(3))] if rng.random() < 0.5 else \
+                    ['B', rng.choice([6, 7, 9, 13, 8, 10]), operand(rng.randrange(3)), e]
+            try:
+                ref_eval(e, val_un, val_bin)
+                return e
+            except (OutOfDomain, BErr):
+                continue
+        return ['B', 9, ['N', 1, 16777216], ['N', 2, 16777217]]
+
     def gen_val_tree(self, depth_left, pextra):
         """Typed tree whose reference evaluation stays in the exact domain (or raises a BASIC error)."""
         rng = self.rng
@@ -515,8 +582,7 @@ class C18(core.Check):
             x = rng.random()
             if x < 0.13:
                 return ['S', rng.choice(['', 'a', 'b', 'ab', 'ba', 'A', 'abc'])]
-            t = rng.choice([0, 0, 0, 1, 1, 2])
-            return ['N', t, rng.choice([0, 1, 2, 3, 4, 5, 7, 8, 10, 12, 100, 255, 256, 1000, 32767, rng.randrange(0, 50)])]
+            return self.num_leaf(rng.choice([0, 0, 0, 1, 1, 2]), 0.25)
         if r < 0.2 + pextra:
             return ['P', self.gen_val_tree(depth_left - 1, pextra)]
         for attempt in range(12):
@@ -595,7 +661,11 @@ class C18(core.Check):
                 out.append({'k': 'toks', 't': t, 'bl': bl})
                 hist['toks_mutated'] += 1
             else:
-                e = self.gen_val_tree(rng.choice([1, 2, 3, 4, 5, 6]), rng.choice([0, 0, 0.15]))
+                if sel >= 18:
+                    e = self.gen_mixed()
+                    hist['val_mixed_precision'] = hist.get('val_mixed_precision', 0) + 1
+                else:
+                    e = self.gen_val_tree(rng.choice([1, 2, 3, 4, 5, 6]), rng.choice([0, 0, 0.15]))
                 if rng.random() < 0.1:
                     e = par_all(e)
                 out.append({'k': 'val', 'e': e, 'alt': alt, 'bl': bl})
